@@ -240,16 +240,16 @@ Item13(j) ==
                [] j = 7 -> MkInput("MessageDataPredicate", 3, 3, 9, 7, 0)
     IN IT("Transaction", Tx1("Script", 3, MkPol(1, 3), <<In1(1), i, In1(7)>>, <<Out1(3)>>, <<Pat(40, 9)>>))
 
-\* 14 (thorough): a predicate variant after every input variant x predicate lengths (non-empty) x predicate-data lengths
-N14 == IF Thorough THEN 3 * 7 * 30 ELSE 0
+\* 14: a predicate variant after every input variant x predicate lengths (non-empty) x predicate-data lengths
+N14 == 3 * 7 * 30
 Item14(j) ==
     LET pk == <<"CoinPredicate", "MessageCoinPredicate", "MessageDataPredicate">>[D(j, 1, 3) + 1]
         a  == D(j, 3, 7) + 1
         lp == L5[D(j, 21, 5) + 1]
         lpd == L6[D(j, 105, 6) + 1]
     IN IT("Transaction", MkTx("Script", 3, 7, 9, 0, 0, 0, MkPol(12, 3), <<In1(a), MkInput(pk, 31, 3, 7, lp, lpd)>>, <<Out1(1)>>, <<Pat(40, 7)>>))
-\* 15 (thorough): all 64 policy masks x every input variant
-N15 == IF Thorough THEN 64 * 7 ELSE 0
+\* 15: all 64 policy masks x every input variant
+N15 == 64 * 7
 Item15(j) == IT("Transaction", MkTx("Script", 3, 1, 0, 0, 0, 0, MkPol(D(j, 1, 64), 3), <<In1(D(j, 64, 7) + 1)>>, <<Out1(2)>>, <<>>))
 
 \* 16 (thorough): every ordered pair of input variants x every ordered pair of output kinds
@@ -279,7 +279,7 @@ Item(f, j) == CASE f = 1 -> Item1(j) [] f = 2 -> Item2(j) [] f = 3 -> Item3(j) [
 \* which items a mode looks at: C01/C04 everything (C04: transactions and inputs/outputs only);
 \* C03: transactions, every Stride-th item (each expands into one line per field); C02: a sample of bases
 IsTxFamily(f) == f >= 5
-Stride == CASE Mode = "C03" -> (IF Thorough THEN 6 ELSE 16) [] Mode = "C02" -> (IF Thorough THEN 9 ELSE 24) [] OTHER -> 1
+Stride == CASE Mode = "C03" -> (IF Thorough THEN 3 ELSE 12) [] Mode = "C02" -> (IF Thorough THEN 5 ELSE 20) [] OTHER -> 1
 Wanted(f, j) ==
     CASE Mode = "C01" -> TRUE
       [] Mode = "C04" -> IsTxFamily(f)
@@ -408,8 +408,7 @@ SizeIsLength == (AtItem /\ Mode = "C01") => H!BLen(cur.exp.bytes) = cur.exp.size
                                             /\ cur.exp.size_static = H!BLen(EncS(SchemaOf(cur.ty), cur.v))
 InDomain     == (AtItem /\ Mode \in {"C01", "C04"}) => WF(SchemaOf(cur.ty), cur.v)
 \* C04: the bytes at the offset of every field are that field's own encoding; OffsetOf agrees with the Layout
-\* (quick tier: the design check runs on every third shape; all shapes are still printed and replayed)
-OffsetsLocate == (AtItem /\ Mode = "C04" /\ (Thorough \/ st[3] % 3 = 0)) =>
+OffsetsLocate == (AtItem /\ Mode = "C04") =>
     LET T == SchemaOf(cur.ty) IN
     \A i \in 1..Len(cur.lay) :
         LET e == cur.lay[i] IN
